@@ -144,6 +144,16 @@ func interactionPrograms() []string {
 			out = append(out, strings.ReplaceAll(tmpl, "NM", nm))
 		}
 	}
+	// (H) a variable deleted (or rebound) by a callee while enclosing frames hold references to it, then used from deeper
+	//     closures: every frame must look the variable up again, none may follow a reference to the deleted binding
+	for _, kill := range []string{"del(x)", "del(x); x = 7", "x = [9]", "del(x); del(x)"} {
+		for _, use := range []string{"x", "x = 5; x", "x++", "del(x)", "[x]", "x + 1", "for x = 2 {}; 1", "func() {x}()", "catch(x).err", "y = x; y", "x == x", "(() => (() => x)())()", "m = {}; m[x] = 1; m"} {
+			for _, touch := range []string{"a = x", "x = x", "a = [x]", "1", "a = func() {x}()"} {
+				out = append(out, fmt.Sprintf(`x = 1; g = func() {%s}; f = func() {%s; g(); h = () => {%s}; h()}; r = catch(f()); println(r.err, catch(x).err)`, kill, touch, use))
+				out = append(out, fmt.Sprintf(`x = 1; g = func() {%s}; f = func() {%s; k = func() {g(); h = () => {%s}; h()}; k()}; r = catch(f()); println(r.err, catch(x).err)`, kill, touch, use))
+			}
+		}
+	}
 	// containers reached through references
 	for _, a := range []string{"x[0] = 5", `x.k = 5`, "del(x[0])", "x = x + 1", "x = x + x", "del(x)"} {
 		for _, init := range []string{"[1, 2, 3]", `{"k": 1, 0: 2}`, "1:12", `{1: 1, 2: 2, 3: 3, 4: 4, 5: 5}`} {
